@@ -8,15 +8,16 @@ echo "" >> $out
 echo "| property | applies | check result |" >> $out
 echo "|---|---|---|" >> $out
 for d in seeded/C*/; do
-  id=$(basename $d)
+  name=$(basename $d)
+  id=${name%b}   # seeded/C05b is a second change for property C05
   if [ -n "$(git -C /repo status --porcelain --untracked-files=no)" ]; then echo "/repo is dirty, stopping" >&2; exit 2; fi
   how=clean
   if ! git -C /repo apply --check $PWD/$d/patch.diff 2>/dev/null; then
     if git -C /repo apply -3 $PWD/$d/patch.diff 2>/dev/null; then how=3way; git -C /repo reset -q; else how=NO; git -C /repo reset -q; git -C /repo checkout -- .; fi
   else git -C /repo apply $PWD/$d/patch.diff; fi
-  if [ $how = NO ]; then echo "| $id | does not apply | - |" >> $out; continue; fi
+  if [ $how = NO ]; then echo "| $name | does not apply | - |" >> $out; continue; fi
   res=$(timeout 1500 ./check $id 2>&1 | grep -E "^VIOLATION|^\[C" | tr '\n' ' ' | cut -c1-220)
   git -C /repo reset -q; git -C /repo checkout -- .
-  echo "| $id | $how | $res |" >> $out
+  echo "| $name | $how | $res |" >> $out
 done
 cat $out
